@@ -19,7 +19,13 @@ pub enum Xc {
     /// errors, injected clock, racing mutations, rlimit/environment knobs)
     NotComparable,
     Agree,
+    /// something outside what the statements describe differs (presence of diagnostics, the
+    /// harness could not run the executable): a harness error, never a VIOLATION
     Disagree(String),
+    /// the executable's exit status, child arguments, working directories or output bytes are
+    /// not what the in-process run (which the oracle accepted) produced: the shipped program
+    /// breaks the property in a way the seams hide
+    Differs(String),
 }
 
 fn script_of(outcomes: &[Outcome]) -> Option<String> {
@@ -85,34 +91,63 @@ pub fn xargs(sc: &XargsScenario, plan: &[ReadOp], ctx: &mut Ctx, bins: &Path) ->
     ];
     cmd.extend(sc.cmd.iter().skip(1).cloned());
     let argv = sc.argv_with(&cmd);
+    // what standard input is: a pipe, a regular file, or a regular file whose offset is already
+    // past bytes that somebody else consumed (`{ read header; xargs ...; } < file`)
+    let stdin_kind = (sc.input.0.len() + sc.cmd.len() + sc.opts.len() + plan.len()) % 3;
+    const CONSUMED: &[u8] = b"consumed-before-xargs 'x\n";
     let mut c = Command::new(bins.join("xargs"));
-    c.args(&argv[1..]).current_dir(&dir).stdin(Stdio::piped()).stdout(Stdio::null()).stderr(Stdio::piped());
+    c.args(&argv[1..]).current_dir(&dir).stdout(Stdio::null()).stderr(Stdio::piped());
+    if stdin_kind == 0 {
+        c.stdin(Stdio::piped());
+    } else {
+        use std::io::{Seek, SeekFrom};
+        let fp = dir.join("stdin.dat");
+        let mut content = if stdin_kind == 2 { CONSUMED.to_vec() } else { vec![] };
+        content.extend_from_slice(&sc.input.0);
+        if std::fs::write(&fp, &content).is_err() {
+            return Xc::Disagree("cannot write the stdin file".into());
+        }
+        let mut f = match std::fs::File::open(&fp) {
+            Ok(f) => f,
+            Err(e) => return Xc::Disagree(format!("cannot open the stdin file: {e}")),
+        };
+        if stdin_kind == 2 {
+            let _ = f.seek(SeekFrom::Start(CONSUMED.len() as u64));
+        }
+        c.stdin(Stdio::from(f));
+    }
     base_env(&mut c, ctx);
+    for (k, v) in &sc.extra.ambient.env {
+        c.env(k, v);
+    }
     let mut child = match c.spawn() {
         Ok(c) => c,
         Err(e) => return Xc::Disagree(format!("cannot start {}: {e}", bins.join("xargs").display())),
     };
-    // feed stdin along the plan's cut positions (the kernel may still coalesce)
-    let mut stdin = child.stdin.take().unwrap();
-    let data = sc.input.0.clone();
-    let mut cuts: Vec<usize> = plan.iter().filter_map(|o| if let ReadOp::Cut(p) = o { Some((*p).min(data.len())) } else { None }).collect();
-    cuts.push(data.len());
-    let writer = std::thread::spawn(move || {
-        let mut at = 0usize;
-        for c in cuts {
-            if c > at {
-                if stdin.write_all(&data[at..c]).is_err() {
-                    return;
+    // a pipe is fed along the plan's cut positions (the kernel may still coalesce)
+    let writer = child.stdin.take().map(|mut stdin| {
+        let data = sc.input.0.clone();
+        let mut cuts: Vec<usize> = plan.iter().filter_map(|o| if let ReadOp::Cut(p) = o { Some((*p).min(data.len())) } else { None }).collect();
+        cuts.push(data.len());
+        std::thread::spawn(move || {
+            let mut at = 0usize;
+            for c in cuts {
+                if c > at {
+                    if stdin.write_all(&data[at..c]).is_err() {
+                        return;
+                    }
+                    let _ = stdin.flush();
+                    at = c;
                 }
-                let _ = stdin.flush();
-                at = c;
             }
-        }
+        })
     });
     let mut err = Vec::new();
     let _ = child.stderr.take().unwrap().read_to_end(&mut err);
     let st = child.wait();
-    let _ = writer.join();
+    if let Some(w) = writer {
+        let _ = w.join();
+    }
     let real_status = match st {
         Ok(s) => status_of(s),
         Err(e) => return Xc::Disagree(format!("wait failed: {e}")),
@@ -120,13 +155,14 @@ pub fn xargs(sc: &XargsScenario, plan: &[ReadOp], ctx: &mut Ctx, bins: &Path) ->
     let real_log = parse_child_log(&std::fs::read(&lp).unwrap_or_default());
     let fake_args: Vec<Vec<Vec<u8>>> = fake.spawn_argvs().into_iter().map(|a| a.into_iter().skip(1).collect()).collect();
     let real_args: Vec<Vec<Vec<u8>>> = real_log.into_iter().map(|(a, _)| a).collect();
-    let ctxs = || format!("xargs {:?} input [{}]", &argv[1..argv.len().min(12)], crate::sys::show(&sc.input.0[..sc.input.0.len().min(80)]));
+    let kind_name = ["a pipe", "a regular file", "a regular file read from an offset"][stdin_kind];
+    let ctxs = || format!("xargs {:?} (standard input: {kind_name}) input [{}]", &argv[1..argv.len().min(12)], crate::sys::show(&sc.input.0[..sc.input.0.len().min(80)]));
     if fake.status != real_status {
-        return Xc::Disagree(format!("{}: in-process status {:?}, executable {:?}; stderr of the executable: {}", ctxs(), fake.status, real_status, crate::sys::lossy(&err[..err.len().min(300)])));
+        return Xc::Differs(format!("{}: in-process status {:?}, executable {:?}; stderr of the executable: {}", ctxs(), fake.status, real_status, crate::sys::lossy(&err[..err.len().min(300)])));
     }
     if fake_args != real_args {
         let at = fake_args.iter().zip(&real_args).position(|(a, b)| a != b).unwrap_or(fake_args.len().min(real_args.len()));
-        return Xc::Disagree(format!(
+        return Xc::Differs(format!(
             "{}: {} invocations in-process, {} by the executable; first difference at #{at}: {} vs {}",
             ctxs(),
             fake_args.len(),
@@ -216,10 +252,10 @@ pub fn find(sc: &FindScenario, ctx: &mut Ctx, bins: &Path, cmd_token: &str) -> X
     };
     let ctxs = || format!("find {:?}", &sc.argv[..sc.argv.len().min(14)]);
     if fake.status != real.status {
-        return Xc::Disagree(format!("{}: in-process status {:?}, executable {:?}; stderr [{}] vs [{}]", ctxs(), fake.status, real.status, crate::sys::lossy(&fake.stderr[..fake.stderr.len().min(200)]), crate::sys::lossy(&real.stderr[..real.stderr.len().min(200)])));
+        return Xc::Differs(format!("{}: in-process status {:?}, executable {:?}; stderr [{}] vs [{}]", ctxs(), fake.status, real.status, crate::sys::lossy(&fake.stderr[..fake.stderr.len().min(200)]), crate::sys::lossy(&real.stderr[..real.stderr.len().min(200)])));
     }
     if fake.log.sink != real.stdout {
-        return Xc::Disagree(format!("{}: standard output differs: {} bytes in-process, {} from the executable", ctxs(), fake.log.sink.len(), real.stdout.len()));
+        return Xc::Differs(format!("{}: standard output differs: {} bytes in-process, {} from the executable", ctxs(), fake.log.sink.len(), real.stdout.len()));
     }
     let fake_children: Vec<(Vec<Vec<u8>>, PathBuf)> = fake
         .log
@@ -237,13 +273,13 @@ pub fn find(sc: &FindScenario, ctx: &mut Ctx, bins: &Path, cmd_token: &str) -> X
         })
         .collect();
     if fake_children.len() != real.children.len() {
-        return Xc::Disagree(format!("{}: {} children in-process, {} by the executable", ctxs(), fake_children.len(), real.children.len()));
+        return Xc::Differs(format!("{}: {} children in-process, {} by the executable", ctxs(), fake_children.len(), real.children.len()));
     }
     let x_root = std::fs::canonicalize(&real.root).unwrap_or(real.root.clone());
     let a_root = std::fs::canonicalize(&root).unwrap_or(root.clone());
     for (k, ((fa, fd), (ra, rd))) in fake_children.iter().zip(&real.children).enumerate() {
         if fa != ra {
-            return Xc::Disagree(format!("{}: child #{k} arguments differ: {} vs {}", ctxs(), show_args(fa), show_args(ra)));
+            return Xc::Differs(format!("{}: child #{k} arguments differ: {} vs {}", ctxs(), show_args(fa), show_args(ra)));
         }
         // same directory relative to the two tree copies
         use std::os::unix::ffi::OsStrExt;
@@ -251,7 +287,7 @@ pub fn find(sc: &FindScenario, ctx: &mut Ctx, bins: &Path, cmd_token: &str) -> X
         let rdp = PathBuf::from(std::ffi::OsStr::from_bytes(rd));
         let rel_r = rdp.strip_prefix(&x_root).map(|p| p.as_os_str().as_bytes().to_vec()).unwrap_or_else(|_| rd.clone());
         if rel_f != rel_r {
-            return Xc::Disagree(format!("{}: child #{k} working directory differs: [{}] vs [{}]", ctxs(), crate::sys::show(&rel_f), crate::sys::show(&rel_r)));
+            return Xc::Differs(format!("{}: child #{k} working directory differs: [{}] vs [{}]", ctxs(), crate::sys::show(&rel_f), crate::sys::show(&rel_r)));
         }
     }
     if fake.stderr.is_empty() != real.stderr.is_empty() {
